@@ -16,7 +16,9 @@ from .common import frac_str
 
 RULE = ('corpus (F8 witnesses, single strokes, empty list) first; exhaustive multisets of <= 3 boxes on the 4x4 grid '
         '{0,6,12,18}^2 (all 100 grid queries for <= 2 boxes, 7 derived queries for 3 - sampled on the quick tier, all '
-        'on thorough); random lists of 1..200 boxes from small coordinate pools (ties, duplicates, nesting, shared '
+        'on thorough); near-maximal-magnitude float boxes (1e300..DBL_MAX, same and opposite sign, mixed with ordinary and '
+        'subnormal ones); every ordered pair of 12 small lists built one after the other, the second asked the first\'s '
+        'queries; every index is asked again after the next one was built; random lists of 1..200 boxes from small coordinate pools (ties, duplicates, nesting, shared '
         'edges, zero-width/height, points, boxes constructed to lie exactly on the mean lines) as ints, Fractions and '
         'floats; queries derived from box coordinates (touching edges/corners, points, lines, cover-all, far away). '
         'A case (box list, query) is non-trivial when the list is non-empty; distinct by (boxes, query).')
@@ -26,6 +28,11 @@ TRUSTED = ['CPython int/float/Fraction arithmetic and exact mixed comparison',
            'the theorems hold for every centre function, so the result does not depend on it)']
 ASSUMPTIONS = ['boxes and query boxes have finite coordinates with min <= max on both axes; ids are hashable '
                '(natural numbers in the model)',
+               'binary64 range effects on the running mean are not modelled: for near-maximal coordinates the mean may '
+               'overflow to +-inf (or, for subnormal ones, lose a bit), which still orders every coordinate (it acts like a centre beyond all boxes, an instance '
+               'of the arbitrary centre of C14_query); the tree comparison is skipped for that stream, queries are judged by '
+               'brute force and against the model\'s id sets. A NaN centre (not reachable from finite boxes in the current '
+               'code: every accumulated term is finite) is outside every centre function.',
                'CPython\'s recursion limit is not modelled: the recursion depth is at most the number of boxes '
                '(theorem C14_terminates)']
 STAGED = []
@@ -130,8 +137,18 @@ def tree_depth(idx):
     return 0 if not idx.subtrees else 1 + max(tree_depth(s) for s in idx.subtrees)
 
 
+def shw(v):
+    """readable and exactly re-readable rendering for evidence / replays"""
+    return repr(v) if type(v) is float else num(v)
+
+
 def show_boxes(boxes):
-    return [[i, [num(v) for v in b]] for (i, b) in boxes]
+    return [[i, [shw(v) for v in b]] for (i, b) in boxes]
+
+
+def is_huge(boxes):
+    """coordinates at which binary64 range effects (overflow of the running mean, subnormal halving) can occur"""
+    return any(type(v) is float and (abs(v) > 1e300 or 0 < abs(v) < 1e-290) for _, b in boxes for v in b)
 
 
 def conv(kind, v):
@@ -154,6 +171,8 @@ def queries_for(rng, boxes, m, kind):
     def near(pool):
         v = rng.choice(pool)
         r = rng.random()
+        if kind == 'float' and r >= 0.6 and rng.random() < 0.5:      # one ulp beside a box edge (near-tie)
+            return math.nextafter(float(v), math.inf if r < 0.8 else -math.inf)
         return v if r < 0.6 else (v - step if r < 0.8 else v + step)
     qs = []
     while len(qs) < m:
@@ -268,6 +287,67 @@ def gen_on_center(rng, nmax):
     return boxes
 
 
+FMAX = 1.7976931348623157e308
+
+
+def gen_huge(rng):
+    """finite float boxes of near-maximal magnitude (1e300 .. DBL_MAX), same and opposite sign, mixed with ordinary
+    and tiny ones; returns (boxes, queries)"""
+    big = [FMAX, 1.7e308, 1.5e308, 1.2e308, 1e308, 8.99e307, 9e307, 4.5e307, 1e305, 1e300]
+    small = [0.0, 1.0, -1.0, 2.5, 1e-310, 5e-324, 1e6]
+    style = rng.choice(['opposite', 'opposite', 'same', 'mixed', 'max'])
+
+    def coord(axis_big):
+        if not axis_big:
+            return rng.choice(small) * rng.choice([1, -1])
+        if style == 'max':
+            return FMAX * rng.choice([1, 1, 1, -1]) if rng.random() < 0.8 else rng.choice(big)
+        v = rng.choice(big) * rng.choice([1.0, 1.0, rng.random()])
+        if style == 'same':
+            return v
+        if style == 'opposite':
+            return v * rng.choice([1, -1])
+        return v * rng.choice([1, -1]) if rng.random() < 0.6 else rng.choice(small)
+    n = rng.choice([1, 2, 2, 3, 3, 4, 5, 7, 9, 12])
+    xbig, ybig = rng.random() < 0.8, rng.random() < 0.4
+    boxes = []
+    for j in range(n):
+        x = sorted([coord(xbig), coord(xbig)]); y = sorted([coord(ybig), coord(ybig)])
+        if rng.random() < 0.2:
+            x[1] = x[0]
+        if rng.random() < 0.2:
+            y[1] = y[0]
+        if style == 'max' and boxes and rng.random() < 0.5:
+            boxes.append((j, boxes[-1][1]))
+            continue
+        boxes.append((j, (x[0], y[0], x[1], y[1])))
+    xs = sorted({b[0] for _, b in boxes} | {b[2] for _, b in boxes} | {-FMAX, FMAX, 0.0})
+    ys = sorted({b[1] for _, b in boxes} | {b[3] for _, b in boxes} | {-FMAX, FMAX, 0.0})
+    qs = [(-FMAX, -FMAX, FMAX, FMAX)]
+    for _ in range(7):
+        a, b = sorted([rng.choice(xs), rng.choice(xs)]); c, d = sorted([rng.choice(ys), rng.choice(ys)])
+        if rng.random() < 0.25:
+            b = a
+        if rng.random() < 0.25:
+            d = c
+        qs.append((a, c, b, d))
+    return boxes, qs
+
+
+def pair_lists(rng):
+    """small box lists in separate regions, used for 'two instances one after the other'"""
+    out = [[], [(0, (2, 0, 2, 1))], [(5, (0, 0, 0, 0))],
+           [(0, (0.0, 0.0, 1.0, 1.0)), (1, (2.0, 0.0, 3.0, 1.0)), (2, (0.0, 2.0, 1.0, 3.0)), (3, (2.0, 2.0, 3.0, 3.0)),
+            (4, (1.5, 0.0, 1.5, 3.0))],
+           [(10, (10.0, 10.0, 11.0, 11.0)), (11, (12.0, 10.0, 13.0, 11.0)), (12, (10.0, 12.0, 13.0, 12.0))]]
+    for _ in range(7):
+        off = rng.choice([0, 0, 20, -40])
+        bs = gen_boxes(rng, 'int', rng.choice([2, 4, 9]))
+        base = rng.randint(0, 3) * 100
+        out.append([(base + i, (b[0] + off, b[1] + off, b[2] + off, b[3] + off)) for i, b in bs])
+    return out
+
+
 GRID = [0, 6, 12, 18]
 GRID_IV = [(a, b) for a in GRID for b in GRID if a <= b]
 GRID_BOXES = [(x[0], y[0], x[1], y[1]) for x in GRID_IV for y in GRID_IV]
@@ -320,10 +400,26 @@ def run(ctx):
             for v in rp.get('violations', []):
                 inp = v.get('input', {})
                 if 'boxes' in inp and 'query' in inp:
-                    bs = [(i, tuple(conv('frac', x) for x in b)) for i, b in inp['boxes']]
-                    cases.append(('replay', 'frac', bs, [tuple(conv('frac', x) for x in inp['query'])]))
+                    rk = inp.get('kind', 'frac')
+                    bs = [(i, tuple(conv(rk, x) for x in b)) for i, b in inp['boxes']]
+                    cases.append(('replay', rk, bs, [tuple(conv(rk, x) for x in inp['query'])]))
         except Exception as ex:
             ctx.notes.append(f'replay file not usable: {ex!r}')
+
+    # near-maximal finite floats: the running mean may overflow to +-inf in binary64 (an infinite centre still orders
+    # every coordinate, so the partition argument applies), which the unbounded-exponent model does not mirror:
+    # the tree comparison is skipped for this stream, the id sets and the brute-force oracle are not
+    for _ in range(ctx.n(700)):
+        bs, qs = gen_huge(rng)
+        cases.append(('huge', 'float', bs, qs))
+    # two instances one after the other: every ordered pair of a few small lists in separate / shared regions;
+    # the second instance is also asked the first one's queries (and, below, the first is asked again afterwards)
+    pl = pair_lists(rng)
+    for a in pl:
+        for b in pl:
+            qa = queries_for(rng, a, 4, 'int'); qb = queries_for(rng, b, 4, 'int')
+            cases.append(('pair-1st', 'int', a, qa + qb))
+            cases.append(('pair-2nd', 'int', b, qb + qa))
 
     # ---- exhaustive small: multisets of <= 3 boxes on the 4x4 grid (scaled by 6: the float mean is exact) ----
     grid_q = list(GRID_BOXES)
@@ -347,14 +443,16 @@ def run(ctx):
     for _ in range(ctx.n(1200)):
         bs = gen_on_center(rng, 12)
         cases.append(('oncenter', 'frac', bs, queries_for(rng, bs, 8, 'frac')))
-    for _ in range(ctx.n(300)):
+    for _ in range(ctx.n(400)):
         bs = gen_boxes(rng, 'float', 120 if rng.random() < 0.06 else 25)
         cases.append(('rand-float', 'float', bs, queries_for(rng, bs, 8, 'float')))
 
     t_gen = time.time()
     # ---- model: one driver line per case ----
+    is_huge_case = {id(bs): is_huge(bs) for (_, _, bs, _) in cases}
+
     def exact_mean(tag, kind):
-        return kind == 'frac' or tag.startswith('grid')
+        return kind == 'frac' or tag.startswith('grid') or is_huge_case.get(id(bs), False)
     outs = [None] * len(cases)
     if use_model:
         lines = []
@@ -372,6 +470,7 @@ def run(ctx):
     t_drv = time.time()
     shrunk = 0
     nonterm = 0
+    earlier = None      # (index, boxes, queries, kind) of the previous case, asked again after the next build
     for (tag, kind, bs, qs), out in zip(cases, outs):
         if len(ctx.violations) >= 200 or nonterm >= 12:
             ctx.notes.append('exploration stopped early: violation cap reached')
@@ -395,6 +494,22 @@ def run(ctx):
             dump = dump_tree(idx)
         except Exception as ex:
             depth, dump = -1, f'unreadable: {ex!r}'
+        if earlier is not None:
+            eidx, ebs, eqs, ekind = earlier
+            for q in eqs[:2] + qs[:1]:
+                ctx.count(('again', tuple(ebs), q, tuple(bs)), 'earlier-instance-again', nontrivial=bool(ebs))
+                try:
+                    rs = set(eidx.intersection(q))
+                except Exception as ex:
+                    rs = {'raised ' + repr(ex)}
+                want = oracle(ebs, q)
+                if rs != want:
+                    ctx.violate('an index built earlier answers wrongly after another index was built in the same process',
+                                {'kind': ekind, 'boxes': show_boxes(ebs), 'query': [shw(v) for v in q],
+                                 'built_afterwards': show_boxes(bs)},
+                                {'returned': sorted(rs, key=repr)}, {'ids': sorted(want)},
+                                key='missed' if want - rs else 'extra')
+        earlier = (idx, bs, qs, kind)
         mtree = mids = mspec = None
         if out is not None:
             parts = out.split(' ')
@@ -403,14 +518,14 @@ def run(ctx):
             mtree = parts[0]
             mids = [set() if t in ('-', '.') else {int(x) for x in t.split(',')} for t in parts[1].split(';')]
             mspec = [set() if t in ('-', '.') else {int(x) for x in t.split(',')} for t in parts[2].split(';')]
-            if mtree != dump:
+            if mtree != dump and not is_huge(bs):
                 ctx.disagree('tree built by Index.__init__ differs from the model (leaf contents / subtree extents)',
                              inp0_(), dump, mtree)
         path = f"{tag}:{'leaf' if depth == 0 else 'depth' + str(min(depth, 4)) if depth > 0 else 'unreadable'}"
         first = None
         for qi, q in enumerate(qs):
             def inp_():
-                return {'kind': kind, 'boxes': show_boxes(bs), 'query': [num(v) for v in q]}
+                return {'kind': kind, 'boxes': show_boxes(bs), 'query': [shw(v) for v in q]}
             ctx.count((tuple(bs), q), path, nontrivial=bool(bs))
             try:
                 r = idx.intersection(q)
@@ -448,7 +563,7 @@ def run(ctx):
                                 cur = t; changed = True
                                 break
                     rr = set(rtree.Index(list(cur)).intersection(q)); ww = oracle(cur, q)
-                    inp = {'kind': kind, 'boxes': show_boxes(cur), 'query': [num(v) for v in q],
+                    inp = {'kind': kind, 'boxes': show_boxes(cur), 'query': [shw(v) for v in q],
                            'shrunk_from_boxes': len(bs)}
                     rs, want, missed, extra = rr, ww, sorted(ww - rr), sorted(rr - ww)
                 if missed:
@@ -460,6 +575,6 @@ def run(ctx):
             elif not isinstance(r, (set, frozenset)):
                 ctx.violate('intersection() does not return a set', inp_(), type(r).__name__, 'set', key='type')
         if bs and qs:
-            ctx.sample({'tag': tag, 'boxes': show_boxes(bs)[:6], 'query': [num(v) for v in qs[0]],
+            ctx.sample({'tag': tag, 'boxes': show_boxes(bs)[:6], 'query': [shw(v) for v in qs[0]],
                         'impl': first, 'tree_depth': depth})
     ctx.notes.append(f'timing: generate {t_gen - t_start:.1f}s, model (driver) {t_drv - t_gen:.1f}s, implementation+oracle {time.time() - t_drv:.1f}s; {len(cases)} box lists')
